@@ -9,6 +9,7 @@ CONSTANTS
   Splits = FALSE
   S0Kinds = {"given", "init"}
   HandOvers = {}
+  OutKinds = {"zero", "used"}
   Emit = TRUE
-INVARIANTS Causal PureLabels SegmentLabels
+INVARIANTS Causal PureLabels OutputContentIrrelevant SegmentLabels
 CHECK_DEADLOCK FALSE
